@@ -84,6 +84,16 @@ def stress_histories():
 
 
 DEPENDENT_GROUPS = [
+    ["expr.factor_intermediates(p0_2_mix,types=[t_amplitude,mp_density])",
+     "expr.factor_intermediates(p0_2_mix,types=t_amplitude)",
+     "expr.factor_intermediates(p0_2_mix,types=mp_density)"],
+    ["expr.factor_intermediates(t1_2_once,types=[t_amplitude,re_residual])",
+     "expr.factor_intermediates(t1_2_once,types=re_residual)",
+     "expr.factor_intermediates(t1_2_once,t_amplitude)"],
+    ["expr.factor_intermediates(t2_2_once,types=[re_residual,t_amplitude,mp_density])",
+     "expr.factor_intermediates(t2_2_once,types=t_amplitude)",
+     "expr.factor_intermediates(t2_2_once,types=[misc,t_amplitude])",
+     "expr.factor_intermediates(t2_2_once,types=misc)"],
     ["isr.mp.pp.precursor(2,ph,bra,ia)", "isr.mp.pp.precursor(2,ph,ket,ia)",
      "isr.mp.pp.overlap_precursor(2,ph,ph,ia,jb)"],
     ["isr.mp.pp.s_root(1,ph,ph,ia,jb)", "isr.mp.pp.intermediate_state(1,ph,ket,ia)",
